@@ -20,9 +20,10 @@ Full statement (FALSE of the pinned tree, see `C07_full_false_zero_trip`, `C07_c
 Two hypotheses of `live_sound` fail on the pinned tree and are the finding classes:
   * `hkill` at a `for` header visited when its iterator is exhausted (the header kills the target on the exit edge):
     `forTargetKilledUnwrittenL`, class `for_target_live_across_zero_trip`;
-  * `hgen` for a read made by a local function that declares the variable `nonlocal`: the closure term is
-    `fn_scope.read − fn_scope.bound` and `nonlocal x` puts `x` into `bound`: `nonlocalInReader`, class
-    `nonlocal_write_in_reaching_closure`; and for lambdas, which `lamba_check` skips (`readerIsLambda`, class
+  * `hgen` for a read made by a function nested below the reaching local function that declares the variable `nonlocal`
+    (`nonlocalInReader` with `closureReadCovered = false`, class `nonlocal_declared_below_reaching_closure`; the case of
+    the reaching function itself declaring it was repaired by /repo ccf3d44 and is now an instance of `C07_closures`);
+    and for lambdas, which `lamba_check` skips (`readerIsLambda`, class
     `read_by_lambda_called_after_its_statement`).
 -/
 namespace Malt.Analysis.C07
@@ -220,81 +221,136 @@ example : stmtNextComplete ztD.graph.edges ztFor = true ∧ liveOutCovers ztIN z
 example : (liveRunModel ztD 100).open_ = [] ∧ solEqOn ztD.graph.nodes (liveRunModel ztD 100).A ztOUT = true
     ∧ solEqOn ztD.graph.nodes (liveRunModel ztD 100).B ztIN = true := by decide
 
-/-! ## The pinned tree, deviation (b): a closure that declares the variable `nonlocal`
+/-! ## Deviation (b), repaired by /repo ccf3d44: a reaching closure that declares the variable `nonlocal`
 
-    def f(c):
+    def f(a, b, c):
         x = 0
         def g():
             nonlocal x
             x = x + 1
             return x
-        if c:
+        if d():
             x = 10
             y = g()
         else:
             y = 0
-        return y                      f(1): 11 natively
+        return tr(0, y)               11 natively; converted: 1 before the fix, 11 now
 
-(REAL data; variables 0 = c, 1 = x, 2 = g, 3 = y; nodes 2 args, 4 `x = 0`, 7 `def g`, 18 `c`, 19 `x = 10`, 22 `y = g()`,
-26 `y = 0`, 29 `return y`; function 7 = g with read = bound = nonlocals = {x}) -/
+The closure term is now `read − (bound − nonlocals − globals)`; the former counterexample is an INSTANCE of `C07_closures`.
+(REAL data of the fixed tree; variables 3 x, 4 g, 6 y; nodes 6 `x = 0`, 9 `def g`, 20 `d()`, 22 `x = 10`, 25 `y = g()`; function 9 = g.) -/
 
 def nlD : CfgData where
   fnId := 1
-  graph := { nodes := [2, 4, 7, 18, 19, 22, 26, 29], edges := [(2, 4), (4, 7), (7, 18), (18, 19), (18, 26), (19, 22), (22, 29), (26, 29)] }
+  graph := { nodes := [2, 6, 9, 20, 22, 25, 29, 32], edges := [(2, 6), (6, 9), (9, 20), (20, 22), (20, 29), (22, 25), (25, 32), (29, 32)] }
   entry := 2
-  exits := [29]
+  exits := [32]
   info := [
-    { id := 2, scope := some { read := [], modified := [], deleted := [], bound := [0], globals := [], nonlocals := [], params := [0], annotations := [] }, isForIter := false, forTargets := [], isFnDef := false, fnsIn := some [] },
-    { id := 4, scope := some { read := [], modified := [1], deleted := [], bound := [1], globals := [], nonlocals := [], params := [], annotations := [] }, isForIter := false, forTargets := [], isFnDef := false, fnsIn := some [] },
-    { id := 7, scope := some { read := [], modified := [2], deleted := [], bound := [2], globals := [], nonlocals := [], params := [], annotations := [] }, isForIter := false, forTargets := [], isFnDef := true, fnsIn := some [] },
-    { id := 18, scope := some { read := [0], modified := [], deleted := [], bound := [], globals := [], nonlocals := [], params := [], annotations := [] }, isForIter := false, forTargets := [], isFnDef := false, fnsIn := some [7] },
-    { id := 19, scope := some { read := [], modified := [1], deleted := [], bound := [1], globals := [], nonlocals := [], params := [], annotations := [] }, isForIter := false, forTargets := [], isFnDef := false, fnsIn := some [7] },
-    { id := 22, scope := some { read := [2], modified := [3], deleted := [], bound := [3], globals := [], nonlocals := [], params := [], annotations := [] }, isForIter := false, forTargets := [], isFnDef := false, fnsIn := some [7] },
-    { id := 26, scope := some { read := [], modified := [3], deleted := [], bound := [3], globals := [], nonlocals := [], params := [], annotations := [] }, isForIter := false, forTargets := [], isFnDef := false, fnsIn := some [7] },
-    { id := 29, scope := some { read := [3], modified := [], deleted := [], bound := [], globals := [], nonlocals := [], params := [], annotations := [] }, isForIter := false, forTargets := [], isFnDef := false, fnsIn := some [7] }]
+    { id := 2, scope := some { read := [], modified := [], deleted := [], bound := [0, 1, 2], globals := [], nonlocals := [], params := [0, 1, 2], annotations := [] }, isForIter := false, forTargets := [], isFnDef := false, fnsIn := some [] },
+    { id := 6, scope := some { read := [], modified := [3], deleted := [], bound := [3], globals := [], nonlocals := [], params := [], annotations := [] }, isForIter := false, forTargets := [], isFnDef := false, fnsIn := some [] },
+    { id := 9, scope := some { read := [], modified := [4], deleted := [], bound := [4], globals := [], nonlocals := [], params := [], annotations := [] }, isForIter := false, forTargets := [], isFnDef := true, fnsIn := some [] },
+    { id := 20, scope := some { read := [5], modified := [], deleted := [], bound := [], globals := [], nonlocals := [], params := [], annotations := [] }, isForIter := false, forTargets := [], isFnDef := false, fnsIn := some [9] },
+    { id := 22, scope := some { read := [], modified := [3], deleted := [], bound := [3], globals := [], nonlocals := [], params := [], annotations := [] }, isForIter := false, forTargets := [], isFnDef := false, fnsIn := some [9] },
+    { id := 25, scope := some { read := [4], modified := [6], deleted := [], bound := [6], globals := [], nonlocals := [], params := [], annotations := [] }, isForIter := false, forTargets := [], isFnDef := false, fnsIn := some [9] },
+    { id := 29, scope := some { read := [], modified := [6], deleted := [], bound := [6], globals := [], nonlocals := [], params := [], annotations := [] }, isForIter := false, forTargets := [], isFnDef := false, fnsIn := some [9] },
+    { id := 32, scope := some { read := [6, 7], modified := [], deleted := [], bound := [], globals := [], nonlocals := [], params := [], annotations := [] }, isForIter := false, forTargets := [], isFnDef := false, fnsIn := some [9] }]
   fns := [
-    { id := 1, parent := 0, isLambda := false, read := [0, 2, 3], bound := [0, 1, 2, 3], nonlocals := [] },
-    { id := 7, parent := 1, isLambda := false, read := [1], bound := [1], nonlocals := [1] }]
-def nlV : List Nat := [2, 4, 7, 18, 19, 22, 26, 29]
-def nlIN : St Nat := solAt [(2, [0]), (4, [0]), (7, [0]), (18, [0, 2]), (19, [2]), (22, [2]), (26, []), (29, [3])]
-def nlOUT : St Nat := solAt [(2, [0]), (4, [0]), (7, [0, 2]), (18, [2]), (19, [2]), (22, [3]), (26, [3]), (29, [])]
-/-- f(1): at step 5 (`y = g()`) the closure g (function 7) reads x, then writes it -/
+    { id := 1, parent := 0, isLambda := false, read := [4, 5, 6, 7], bound := [0, 1, 2, 3, 4, 6], nonlocals := [], globals := [] },
+    { id := 9, parent := 1, isLambda := false, read := [3], bound := [3], nonlocals := [3], globals := [] }]
+def nlV : List Nat := [2, 6, 9, 20, 22, 25, 29, 32]
+def nlIN : St Nat := solAt [(2, [5, 7]), (6, [5, 7]), (9, [3, 5, 7]), (20, [3, 4, 5, 7]), (22, [3, 4, 7]), (25, [3, 4, 7]), (29, [3, 7]), (32, [3, 6, 7])]
+def nlOUT : St Nat := solAt [(2, [5, 7]), (6, [3, 5, 7]), (9, [3, 4, 5, 7]), (20, [3, 4, 7]), (22, [3, 4, 7]), (25, [3, 6, 7]), (29, [3, 6, 7]), (32, [])]
 def nlT : Trace :=
-  [{ node := 2, reads := [], writes := [0], dels := [], fwrites := [], creads := [] },
-   { node := 4, reads := [], writes := [1], dels := [], fwrites := [], creads := [] },
-   { node := 7, reads := [], writes := [2], dels := [], fwrites := [], creads := [] },
-   { node := 18, reads := [0], writes := [], dels := [], fwrites := [], creads := [] },
-   { node := 19, reads := [], writes := [1], dels := [], fwrites := [], creads := [] },
-   { node := 22, reads := [2], writes := [3], dels := [], fwrites := [1], creads := [(7, 1)] },
-   { node := 29, reads := [3], writes := [], dels := [], fwrites := [], creads := [] }]
+  [{ node := 2, reads := [], writes := [0, 1, 2], dels := [], fwrites := [], creads := [] },
+   { node := 6, reads := [], writes := [3], dels := [], fwrites := [], creads := [] },
+   { node := 9, reads := [], writes := [4], dels := [], fwrites := [], creads := [] },
+   { node := 20, reads := [5], writes := [], dels := [], fwrites := [], creads := [] },
+   { node := 22, reads := [], writes := [3], dels := [], fwrites := [], creads := [] },
+   { node := 25, reads := [4], writes := [6], dels := [], fwrites := [3], creads := [(9, 3)] },
+   { node := 32, reads := [6, 7], writes := [], dels := [], fwrites := [], creads := [] }]
 
-/-- a closure read "by a reaching, non-lambda local function that really reads the variable" -/
-def closureReads (D : CfgData) (T : Trace) (j v : Nat) : Bool :=
+/-- the repaired witness: g's read of `x` at step 5 is covered, so `x` is live at the exit of `x = 10` (step 4) and at the entry
+of `y = g()` — obtained from `C07_closures`, every hypothesis evaluated on the real data -/
+example : 3 ∈ nlOUT (nlT.nodeAt 4) ∧ 3 ∈ nlIN (nlT.nodeAt 5) :=
+  C07_closures nlD nlV nlIN nlOUT nlT (by decide) (by decide) 4 5 3 9 (by decide)
+    { read := [4], modified := [6], deleted := [], bound := [6], globals := [], nonlocals := [], params := [], annotations := [] }
+    rfl (by decide) (by decide) (by decide) (by decide)
+
+/-! ## What is left of deviation (b): `nonlocal` declared BELOW the reaching closure
+
+    def f(a, b, c):
+        x = 0
+        def g():
+            def h():
+                nonlocal x
+                x = x + 1
+                return x
+            return h()
+        if d():
+            x = 10
+            y = g()
+        else:
+            y = 0
+        return tr(0, y)               11 natively, 1 converted (also after ccf3d44)
+
+`g` reaches the call, but `x` is not in `g`'s read set: `Scope.finalize` hands an isolated scope's `read − bound` to its parent, and
+`nonlocal x` put `x` into `h`'s bound set.  `h` itself is defined in `g`'s graph and reaches no node of `f`.
+(REAL data of the fixed tree; variables 3 x, 4 g, 6 h, 7 y; nodes 6 `x = 0`, 9 `def g`, 25 `d()`, 27 `x = 10`, 30 `y = g()`;
+functions 9 = g, 11 = h.) -/
+
+def nbD : CfgData where
+  fnId := 1
+  graph := { nodes := [2, 6, 9, 25, 27, 30, 34, 37], edges := [(2, 6), (6, 9), (9, 25), (25, 27), (25, 34), (27, 30), (30, 37), (34, 37)] }
+  entry := 2
+  exits := [37]
+  info := [
+    { id := 2, scope := some { read := [], modified := [], deleted := [], bound := [0, 1, 2], globals := [], nonlocals := [], params := [0, 1, 2], annotations := [] }, isForIter := false, forTargets := [], isFnDef := false, fnsIn := some [] },
+    { id := 6, scope := some { read := [], modified := [3], deleted := [], bound := [3], globals := [], nonlocals := [], params := [], annotations := [] }, isForIter := false, forTargets := [], isFnDef := false, fnsIn := some [] },
+    { id := 9, scope := some { read := [], modified := [4], deleted := [], bound := [4], globals := [], nonlocals := [], params := [], annotations := [] }, isForIter := false, forTargets := [], isFnDef := true, fnsIn := some [] },
+    { id := 25, scope := some { read := [5], modified := [], deleted := [], bound := [], globals := [], nonlocals := [], params := [], annotations := [] }, isForIter := false, forTargets := [], isFnDef := false, fnsIn := some [9] },
+    { id := 27, scope := some { read := [], modified := [3], deleted := [], bound := [3], globals := [], nonlocals := [], params := [], annotations := [] }, isForIter := false, forTargets := [], isFnDef := false, fnsIn := some [9] },
+    { id := 30, scope := some { read := [4], modified := [7], deleted := [], bound := [7], globals := [], nonlocals := [], params := [], annotations := [] }, isForIter := false, forTargets := [], isFnDef := false, fnsIn := some [9] },
+    { id := 34, scope := some { read := [], modified := [7], deleted := [], bound := [7], globals := [], nonlocals := [], params := [], annotations := [] }, isForIter := false, forTargets := [], isFnDef := false, fnsIn := some [9] },
+    { id := 37, scope := some { read := [7, 8], modified := [], deleted := [], bound := [], globals := [], nonlocals := [], params := [], annotations := [] }, isForIter := false, forTargets := [], isFnDef := false, fnsIn := some [9] }]
+  fns := [
+    { id := 1, parent := 0, isLambda := false, read := [4, 5, 7, 8], bound := [0, 1, 2, 3, 4, 7], nonlocals := [], globals := [] },
+    { id := 9, parent := 1, isLambda := false, read := [6], bound := [6], nonlocals := [], globals := [] },
+    { id := 11, parent := 9, isLambda := false, read := [3], bound := [3], nonlocals := [3], globals := [] }]
+def nbV : List Nat := [2, 6, 9, 25, 27, 30, 34, 37]
+def nbIN : St Nat := solAt [(2, [5, 8]), (6, [5, 8]), (9, [5, 8]), (25, [4, 5, 8]), (27, [4, 8]), (30, [4, 8]), (34, [8]), (37, [7, 8])]
+def nbOUT : St Nat := solAt [(2, [5, 8]), (6, [5, 8]), (9, [4, 5, 8]), (25, [4, 8]), (27, [4, 8]), (30, [7, 8]), (34, [7, 8]), (37, [])]
+def nbT : Trace :=
+  [{ node := 2, reads := [], writes := [0, 1, 2], dels := [], fwrites := [], creads := [] },
+   { node := 6, reads := [], writes := [3], dels := [], fwrites := [], creads := [] },
+   { node := 9, reads := [], writes := [4], dels := [], fwrites := [], creads := [] },
+   { node := 25, reads := [5], writes := [], dels := [], fwrites := [], creads := [] },
+   { node := 27, reads := [], writes := [3], dels := [], fwrites := [], creads := [] },
+   { node := 30, reads := [4], writes := [7], dels := [], fwrites := [3], creads := [(11, 3)] },
+   { node := 37, reads := [7, 8], writes := [], dels := [], fwrites := [], creads := [] }]
+
+/-- a read by a function nested (at any depth) in a reaching, non-lambda local function -/
+def closureReadsNested (D : CfgData) (T : Trace) (j v : Nat) : Bool :=
   match T[j]? with
-  | some s => s.creads.any (fun c => c.2 == v && (D.fnsIn s.node).contains c.1 && !readerIsLambda D c.1 &&
-      (match D.fnOf c.1 with | some fi => fi.read.contains v | none => false))
+  | some s => s.creads.any (fun c => c.2 == v &&
+      onChain D (fun h => (D.fnsIn s.node).contains h && !readerIsLambda D h) (D.fns.length + 1) c.1)
   | none => false
 
-/-- Full closure clause (without `v ∉ bound`): FALSE of the pinned tree.  `x = 10` (step 4) finishes, the next statement
-calls `g`, which reads that value of `x`; the real sets are a fixed point, the run is a path — and `x` is neither live at the
-exit of `x = 10` nor at the entry of `y = g()`. -/
+/-- The closure clause for readers nested below the reaching function is false of the tree as it is now: `x = 10` (step 4)
+finishes, the next statement calls `g`, whose inner function `h` reads that value of `x`; the real sets are a fixed point, the
+run is a path — and `x` is neither live at the exit of `x = 10` nor at the entry of `y = g()`. -/
 theorem C07_closures_full_false :
     ¬ (∀ (D : CfgData) (V : List Nat) (IN OUT : St Nat) (T : Trace) (i j v : Nat),
         isFix (Graph.revEdges D.graph.edges) V (liveFlow D) OUT IN = true → isPathB D.graph.edges V T = true →
-        j < T.length → closureReads D T j v = true → isReadBeforeOverwriteB T i j v = true →
+        j < T.length → closureReadsNested D T j v = true → isReadBeforeOverwriteB T i j v = true →
         v ∈ OUT (T.nodeAt i) ∧ v ∈ IN (T.nodeAt (i + 1))) := by
   intro h
-  have := h nlD nlV nlIN nlOUT nlT 4 5 1 (by decide) (by decide) (by decide) (by decide) (by decide)
+  have := h nbD nbV nbIN nbOUT nbT 4 5 3 (by decide) (by decide) (by decide) (by decide) (by decide)
   revert this
   decide
 
-/-- the counterexample is exactly in the class the partial theorem assumes away: not covered because declared nonlocal -/
-example : closureReadCovered nlD 22 7 1 = false ∧ nonlocalInReader nlD 7 1 = true ∧ readerIsLambda nlD 7 = false
-    ∧ forTargetKilledUnwrittenL nlD nlT 4 5 1 = false ∧ otherKillUnwrittenL nlD nlT 4 5 1 = false := by decide
-
-/-- Non-vacuity of the closure part: were `x` not declared nonlocal in `g` (bound = ∅), the read would be covered -/
-example : closureReadCovered { nlD with fns := [{ id := 7, parent := 1, isLambda := false, read := [1], bound := [], nonlocals := [] }] } 22 7 1 = true := by
-  decide
+/-- the counterexample is exactly in the class the partial theorem assumes away: not covered, and a function on the reader's
+lexical chain declares the variable nonlocal -/
+example : closureReadCovered nbD 30 11 3 = false ∧ nonlocalInReader nbD 11 3 = true ∧ readerIsLambda nbD 11 = false
+    ∧ forTargetKilledUnwrittenL nbD nbT 4 5 3 = false ∧ otherKillUnwrittenL nbD nbT 4 5 3 = false := by decide
 
 /-! ## The pinned tree, deviation (c): a lambda called after its statement
 
@@ -322,8 +378,8 @@ def llD : CfgData where
     { id := 17, scope := some { read := [], modified := [3], deleted := [], bound := [3], globals := [], nonlocals := [], params := [], annotations := [] }, isForIter := false, forTargets := [], isFnDef := false, fnsIn := some [11] },
     { id := 20, scope := some { read := [4, 6], modified := [], deleted := [], bound := [], globals := [], nonlocals := [], params := [], annotations := [] }, isForIter := false, forTargets := [], isFnDef := false, fnsIn := some [11] }]
   fns := [
-    { id := 1, parent := 0, isLambda := false, read := [3, 4, 5, 6], bound := [0, 1, 2, 3, 4], nonlocals := [] },
-    { id := 11, parent := 1, isLambda := true, read := [3], bound := [], nonlocals := [] }]
+    { id := 1, parent := 0, isLambda := false, read := [3, 4, 5, 6], bound := [0, 1, 2, 3, 4], nonlocals := [], globals := [] },
+    { id := 11, parent := 1, isLambda := true, read := [3], bound := [], nonlocals := [], globals := [] }]
 def llV : List Nat := [2, 6, 9, 11, 15, 17, 20]
 def llIN : St Nat := solAt [(2, [5, 6]), (6, [5, 6]), (9, [3, 5, 6]), (11, [3, 5, 6]), (15, [4, 5, 6]), (17, [4, 6]), (20, [4, 6])]
 def llOUT : St Nat := solAt [(2, [5, 6]), (6, [3, 5, 6]), (9, [4, 5, 6]), (11, [3, 5, 6]), (15, [4, 6]), (17, [4, 6]), (20, [])]
@@ -386,7 +442,7 @@ def etD : CfgData where
     { id := 24, scope := some { read := [7], modified := [], deleted := [], bound := [], globals := [], nonlocals := [], params := [], annotations := [] }, isForIter := false, forTargets := [], isFnDef := false, fnsIn := some [] },
     { id := 29, scope := some { read := [7], modified := [], deleted := [], bound := [], globals := [], nonlocals := [], params := [], annotations := [] }, isForIter := false, forTargets := [], isFnDef := false, fnsIn := some [] }]
   fns := [
-    { id := 1, parent := 0, isLambda := false, read := [3, 4, 5, 6, 7], bound := [0, 1, 2, 4], nonlocals := [] }]
+    { id := 1, parent := 0, isLambda := false, read := [3, 4, 5, 6, 7], bound := [0, 1, 2, 4], nonlocals := [], globals := [] }]
 def etV : List Nat := [2, 6, 10, 12, 16, 24, 29]
 def etIN : St Nat := solAt [(2, [3, 5, 6, 7]), (6, [3, 5, 6, 7]), (10, [5, 6, 7]), (12, [6, 7]), (16, [6, 7]), (24, [7]), (29, [7])]
 def etOUT : St Nat := solAt [(2, [3, 5, 6, 7]), (6, [5, 6, 7]), (10, [6, 7]), (12, [6, 7]), (16, [7]), (24, []), (29, [])]
@@ -442,7 +498,7 @@ def cbD : CfgData where
     { id := 27, scope := some { read := [7, 8], modified := [9], deleted := [], bound := [9], globals := [], nonlocals := [], params := [], annotations := [] }, isForIter := false, forTargets := [], isFnDef := false, fnsIn := some [] },
     { id := 31, scope := some { read := [5, 9], modified := [], deleted := [], bound := [], globals := [], nonlocals := [], params := [], annotations := [] }, isForIter := false, forTargets := [], isFnDef := false, fnsIn := some [] }]
   fns := [
-    { id := 1, parent := 0, isLambda := false, read := [0, 1, 2, 3, 4, 5, 6, 7, 8, 9], bound := [0, 1, 2, 3, 7, 9], nonlocals := [] }]
+    { id := 1, parent := 0, isLambda := false, read := [0, 1, 2, 3, 4, 5, 6, 7, 8, 9], bound := [0, 1, 2, 3, 7, 9], nonlocals := [], globals := [] }]
 def cbV : List Nat := [2, 6, 12, 14, 22, 27, 31]
 def cbIN : St Nat := solAt [(2, [0, 1, 2, 4, 5, 6, 8]), (6, [0, 1, 2, 4, 5, 6, 8]), (12, [2, 4, 5, 6, 8]), (14, [2, 5, 6, 8]), (22, [5, 6, 8]), (27, [5, 7, 8]), (31, [5, 9])]
 def cbOUT : St Nat := solAt [(2, [0, 1, 2, 4, 5, 6, 8]), (6, [2, 4, 5, 6, 8]), (12, [2, 5, 6, 8]), (14, [5, 6, 8]), (22, [5, 7, 8]), (27, [5, 9]), (31, [])]
